@@ -8,7 +8,7 @@ from tv import mfiles as M
 ID = 'C17'
 LEVEL = 'exploration'
 QUICK_S = 60
-THOROUGH_S = 900
+THOROUGH_S = 300
 TECHNIQUE = ('runtime monitoring: builtins.open spy (opens per file per top-level load), identity census over every reachable '
              'model repository, reference lookup-order oracle with deliberately colliding names')
 RULE = ('random directories of 2-7 model files in up to 3 sub-directories with random import graphs (cycles, diamonds, '
@@ -300,7 +300,7 @@ def one(ctx, i, rep=None):
 
 
 def run(ctx):
-    for i in ctx.indices(2400 if ctx.tier == "quick" else 12000, "random"):
+    for i in ctx.indices(2400 if ctx.tier == "quick" else 10 ** 7, "random"):
         one(ctx, i)
 
 
